@@ -331,7 +331,16 @@ func (e *notaryEnv) confirm(t *transaction.Transaction) error {
 		e.settle(f+2, b+2)
 	}
 	e.c.Line("CONFIRM %s | %s %s", trxFields(t), respTag(rerr), e.lo())
+	sealedBefore := strings.Split(e.prevState, " | ")[0]
 	e.state()
+	// a confirmation the service answers with an error has sealed nothing (whatever the reason of the refusal:
+	// not awaiting here, refused by the ledger, signatures)
+	if sealedNow := strings.Split(e.prevState, " | ")[0]; rerr != nil && sealedBefore != "" && sealedNow != sealedBefore {
+		for _, pid := range []string{"C15", "C16"} {
+			e.c.Violate(pid, "refused-confirm-sealed", fmt.Sprintf("Confirm was answered with %s, yet the ledger's sealed transactions went from [%s] to [%s] (data %d bytes)", respTag(rerr), sealedBefore, sealedNow, len(t.Data)),
+				map[string]interface{}{"section": "notary", "call": "confirm", "response": respTag(rerr)})
+		}
+	}
 	return rerr
 }
 
